@@ -20,6 +20,7 @@ import (
 	"time"
 
 	"github.com/hashicorp/nodeenrollment"
+	"github.com/hashicorp/nodeenrollment/protocol"
 	"github.com/hashicorp/nodeenrollment/registration"
 	nodetls "github.com/hashicorp/nodeenrollment/tls"
 	"github.com/hashicorp/nodeenrollment/types"
@@ -65,7 +66,7 @@ func placeAt(chunks []string, where string, what ...string) []string {
 // runChunksThroughListener returns the number of layouts compared
 func runChunksThroughListener(c *engine.Ctx) {
 	r := c.R
-	s := world.MustServer(world.ServerCfg{Backend: world.Inmem})
+	s := world.MustServer(world.ServerCfg{Backend: world.Inmem, RegWrap: true})
 	defer s.Close()
 	er, err := world.Enroll(s, world.FlowAuthorize, false, nil, nil, nil)
 	if err != nil {
@@ -290,4 +291,42 @@ func runChunksThroughListener(c *engine.Ctx) {
 			r.Count(fmt.Sprintf("client_configs_state_bytes:%d(alpn %d)", size, total), 1)
 		}
 	}
+	// the library's own fetch path: protocol.Dial of a node without credentials splits its fetch
+	// request (made large by application parameters of the wrapping flow) into ALPN entries
+	for _, size := range []int{16, 4000, 12000, 24000, 36000} {
+		params, _ := structpb.NewStruct(map[string]any{"blob": strings.Repeat("p", size-8) + fmt.Sprintf("%08d", rng.Intn(100000000))})
+		desc := fmt.Sprintf("through-listener|dial fetch with %d bytes of parameters", size)
+		n, err := world.NewNode(false, "")
+		if err != nil {
+			r.Broken("chunks listener node: " + err.Error())
+			return
+		}
+		mu.Lock()
+		gotFetch = nil
+		mu.Unlock()
+		r.Eval(desc, true)
+		conn, derr := protocol.Dial(s.Ctx, n.Store, lw.Addr, n.NodeOpts(nodeenrollment.WithRegistrationWrapper(s.RW), nodeenrollment.WithWrappingRegistrationFlowApplicationSpecificParams(params))...)
+		if conn != nil {
+			if rec, werr := lw.Wait(conn.LocalAddr().String()); werr == nil && rec.Returned && rec.Conn != nil {
+				rec.Conn.Close()
+			}
+			conn.Close()
+		}
+		mu.Lock()
+		gf := gotFetch
+		mu.Unlock()
+		wit := map[string]any{"parameter_bytes": size, "dial_error": fmt.Sprint(derr)}
+		ni, _ := s.LoadNode(n.K.KeyID)
+		switch {
+		case len(gf) == 0:
+			r.Violation("client-refused-payload-that-fits", fmt.Sprintf("a fetch request with %d bytes of application parameters, which fits a ClientHello, never reached the server: %v", size, derr), wit)
+		case derr != nil:
+			r.Violation("listener-recombination-differs:fetch:not-recovered", fmt.Sprintf("enrollment through Dial with %d bytes of application parameters failed: %v", size, derr), wit)
+		case ni == nil || ni.WrappingRegistrationFlowInfo == nil || !proto.Equal(ni.WrappingRegistrationFlowInfo.ApplicationSpecificParams, params):
+			r.Violation("listener-recombination-differs:fetch", fmt.Sprintf("the parameters the server registered differ from the %d bytes the node sent", size), wit)
+		default:
+			r.Count("listener_recombined_equal:dial-fetch", 1)
+		}
+	}
+
 }
